@@ -81,6 +81,8 @@ type Enc struct {
 	faultPoints []string
 	usedAssumes map[string]bool
 	waived      []string
+	nclosures   int
+	closureIDs  []*closureVal
 }
 
 func newEnc(P *Program, U *Universe, fn *ssa.Function) *Enc {
